@@ -129,23 +129,31 @@ inductive Got where
  | noattr
 deriving Repr, DecidableEq
 
-/-- `_FieldOfDressed.__get__` -/
-def hget (u : Universe) (s : St) (i : Nat) (py : String) : Got :=
+/-- `_FieldOfDressed.__get__`: a cached dressed object is returned as it is for a nested field; for a REFERENCE field the cache
+is believed only while the buffer still refers to that very object (the reference may have been changed through another
+object dressing the same memory) - otherwise the cache entry is dropped and the attribute is what the buffer says -/
+def hget (u : Universe) (s : St) (i : Nat) (py : String) : St × Got :=
   let x := s.inst i
   let c := clsOf u x.cls
   let f := xoName c py
   match fkind c f with
-  | none => .noattr
+  | none => (s, .noattr)
   | some k =>
     match x.dressed.lookup f with
-    | some j => .inst j
+    | some j =>
+      match k, xread s.heap (x.loc.sub f) with
+      | .ref _, some (.ref _ (some t)) =>
+        if t == (s.inst j).loc then (s, .inst j)
+        else (s.setInst i { x with dressed := x.dressed.filter (·.1 != f) }, .bare t)
+      | .ref _, some (.ref _ none) => (s.setInst i { x with dressed := x.dressed.filter (·.1 != f) }, .none_)
+      | _, _ => (s, .inst j)
     | none =>
       match k, xread s.heap (x.loc.sub f) with
-      | .num, some (.num v) => .num v
-      | .nested _, some _ => .bare (x.loc.sub f)
-      | .ref _, some (.ref _ (some t)) => .bare t
-      | .ref _, some (.ref _ none) => .none_
-      | _, _ => .noattr
+      | .num, some (.num v) => (s, .num v)
+      | .nested _, some _ => (s, .bare (x.loc.sub f))
+      | .ref _, some (.ref _ (some t)) => (s, .bare t)
+      | .ref _, some (.ref _ none) => (s, .none_)
+      | _, _ => (s, .noattr)
 
 inductive HErr | memory | name | value
 deriving Repr, DecidableEq
